@@ -142,7 +142,7 @@ theorem stepOK_of_C10 {m n : ℕ} (N : C09Euclid.NLS X m n) (h : N.Spec) : StepO
 
 /-- Zero residual (`r_n == 0`, where the code computes `rho = NaN`): the step is accepted, no strategy takes
     it (`Δ` shrinks), the `Ftol` TEST cannot fire, `Ptol` fires iff `‖D dx‖ < ptol·n`.  With the model switch
-    `Optim.zeroResidualConverged` (pending repair of optim.hpp) the status is `Ftol` instead. -/
+    `Optim.zeroResidualConverged` (the repaired optim.hpp, /repo 04fbd01) the status is `Ftol` instead. -/
 theorem nan_rho_paths (opts : Opts ℝ) (s : State X (Strat ℝ)) (o : Obs ℝ) (xp xa : X) (h : o.rn = 0) :
     rhoOf o = .nan
       ∧ (advance builtinOps opts s o xp xa).2.take = false
